@@ -22,7 +22,7 @@ CONSTANTS
 NonceDefects == {"forgedNonce", "mutTsNonce", "mutMacNonce", "otherInstNonce", "staleNonce", "futureNonce",
                  "emptyNonce", "garbageNonce", "longNonce"}
 \* defects found before / after the nonce check: answered with an error without success (400)
-OtherDefects == {"noNonce", "noUser", "noRealm", "otherRealm", "ghostUser", "wrongPw", "truncMI", "flipMI", "flipBody", "otherUserKey"}
+OtherDefects == {"noNonce", "noUser", "noRealm", "noRealmKeyed", "otherRealm", "ghostUser", "wrongPw", "truncMI", "flipMI", "flipBody", "otherUserKey"}
 
 Challenge(c, m) == [k |-> "resp", to |-> c, m |-> m, cls |-> "err", code |-> -1, nonce |-> TRUE, realm |-> TRUE]
 
